@@ -910,7 +910,7 @@ fn command_encoder(cx: &mut Ctx) {
     use redis_sim::redis::{Command, SDS};
     use redis_sim::simulator::connection::SimulatedReadBuffer;
     let vals: [&[u8]; 5] = [b"v", b"", b"with\r\ncrlf", b"\x00\xff$*", b"0123456789012345678901234567890123456789"];
-    let keys: [&str; 4] = ["k", "", "key with space", "k\r\n"];
+    let keys: [&str; 5] = ["k", "", "key with space", "k\r\n", "ké✓"];
     let mut cases: Vec<(Command, Vec<Vec<u8>>)> = vec![(Command::Ping(None), vec![b"PING".to_vec()])];
     for v in vals {
         cases.push((Command::Ping(Some(SDS::new(v.to_vec()))), vec![b"PING".to_vec(), v.to_vec()]));
@@ -1522,6 +1522,29 @@ fn encoder3(cx: &mut Ctx) {
     }
 }
 
+/// the coverage audit of C15 against the eleven classes of missed inputs (also DESIGN §4 C15 "coverage audit")
+fn audit() -> serde_json::Value {
+    json!([
+      {"class": 1, "topic": "entry paths / variants never driven",
+       "covered": "both decoders (every per-type parser, find_crlf), encoders 1-6, both error encoders, put_line; encoder 5 = the bin server_persistent.rs's copy, its SOURCE TEXT compiled into the harness by build.rs; encoder 6 = SimulatedReadBuffer::encode_command through its public API; every function of the source tree that looks like a RESP codec is enumerated at run time and accounted for (C15:coverage:resp-codec-not-accounted); hook H1c detection restored in build.rs (its loss had left encoders 3 / 4 silently undriven: now C15:coverage:hook-h1c-absent)",
+       "open": "bin-only main.rs::encode_command and shadow_proxy.rs::parse_resp_command"},
+      {"class": 2, "topic": "input alphabet",
+       "covered": "exhaustive strings over the grammar alphabet; all 256 values of the first byte (top level and as array element) before six tails; CR / LF patterns; non-UTF-8 lines; integers at the i64 / usize limits",
+       "open": ""},
+      {"class": 3, "topic": "comparisons at equality",
+       "covered": "nesting at limit-2 .. limit+2 and 2*limit (complete, truncated, null / empty arrays below the limit); bulk trailer missing by 0 / 1 / 2 bytes (all cuts); array pre-allocation clamp at 3 bytes per element (85 / 86 / 1000 / 16000 / 30000 elements, one element short, one byte short)",
+       "open": "the clamp's exact request is observed only above the allocator log threshold (1 MiB)"},
+      {"class": 4, "topic": "configuration", "covered": "no configuration is read; MAX_NESTING_DEPTH is read from resp.rs by ./check and compared with the value the theorems assume", "open": "feature opt-itoa-encode off"},
+      {"class": 5, "topic": "capacity thresholds", "covered": "encoder buffer 256, 64 KiB, the 1 MiB observation threshold (bulk 2^20-1 / 2^20), allocator cap 1 GiB (child), 2 MiB / 256 KiB stacks", "open": "RespParser's amortised vector growth is not modelled (stated assumption)"},
+      {"class": 6, "topic": "fault kinds", "covered": "panic, allocation refusal (child process), stack overflow (child process)", "open": ""},
+      {"class": 7, "topic": "history shapes", "covered": "one buffer across many frames and chunks, dead after an error, every 1- and 2-cut fragmentation of short streams", "open": ""},
+      {"class": 8, "topic": "node-global state", "covered": "none exists", "open": ""},
+      {"class": 9, "topic": "observations", "covered": "value, consumed, error class, big allocation requests, exact encoder bytes, frames / rest / liveness of the buffer loop", "open": "exact decoder error texts (the connection discards them)"},
+      {"class": 10, "topic": "finding signatures", "covered": "no listed finding (all repaired)", "open": ""},
+      {"class": 11, "topic": "harness fragility", "covered": "absence of hook H1c or of the extracted bin encoder is a violation; a failed source scan is a violation; skipped:child-budget is counted (corpus cases run first)", "open": ""}
+    ])
+}
+
 fn run_inner(a: &Args) {
     install_silent_panic_hook();
     let quick = a.tier != "thorough";
@@ -1635,6 +1658,7 @@ fn run_inner(a: &Args) {
             }
         }
     }
+    cx.out.extra.insert("audit".into(), audit());
     cx.out.finish("case = one decoder call D<codec>(bytes) | one fragmented feed F<codec>(stream, cuts) | one encoder call E<k>(value) | one nested-array decode N<codec>(depth, stack); distinct by canonical text; a decode is non-trivial iff the input has at least 3 bytes and starts with a RESP type byte, a feed iff it has at least one cut and yields at least one frame");
 }
 
